@@ -69,6 +69,9 @@ func complete(c Cmd) Cmd {
 		if _, ok := out["rpathok"]; !ok {
 			rp := out.str("rpath")
 			out["rpathok"] = rp == "r1.txt" || rp == "r2.txt" || rp == "sub/r3.txt"
+			if out.str("rclean") == Absent && rp != Absent {
+				out["rclean"] = rp
+			}
 		}
 		if _, ok := out["newids"]; !ok {
 			out["newids"] = []string{}
@@ -117,6 +120,7 @@ type Obs struct {
 	Gone     []string         `json:"gone"`
 	Readable bool             `json:"readable"`
 	ListShow bool             `json:"listshow"`
+	Faithful bool             `json:"faithful"`
 	Facts    map[string]any   `json:"facts"`
 	Only     []string         `json:"only,omitempty"`
 	Procs    []procRec        `json:"procs"`
@@ -443,7 +447,7 @@ func (sp *Stepper) step(c Cmd, tag string) *Obs {
 	tab := rk.table()
 
 	o := &Obs{Tag: tag, Cmd: c, Exit: res.Exit, Procs: []procRec{}, Readers: []readerRec{}, After: []afterRec{}, Readable: pre.Readable && post.Readable,
-		ListShow: len(pre.Mismatch) == 0 && len(post.Mismatch) == 0,
+		ListShow: len(pre.Mismatch) == 0 && len(post.Mismatch) == 0, Faithful: post.Faithful,
 		Pre:      rankView(pre.View, tab), Post: rankView(post.View, tab),
 		LogPre: rankLog(plPre, tab), LogPost: rankLog(plPost, tab),
 		Facts: map[string]any{}, stderr: string(res.Stderr), stdout: string(res.Stdout), obsErr: post.Err,
